@@ -94,23 +94,21 @@ theorem readLines_noDelim (m : Nat) (bs : Bytes) (h : DELIM ∉ bs) :
   · exact delim_ne_nl h'
 
 /-- A raw line that survives the plain wire unchanged. -/
-def GoodLine (bufLen : Nat) (l : Bytes) : Prop :=
-  LineWF l ∧ DELIM ∉ l ∧ l.head? ≠ some DOT ∧ l.length + 1 ≤ bufLen
+def GoodLine (l : Bytes) : Prop :=
+  LineWF l ∧ DELIM ∉ l ∧ l.head? ≠ some DOT
 
-theorem pipeline_plain (bufLen : Nat) (lines : List Bytes) (msgs : List Bytes)
-    (hgood : ∀ l ∈ lines, GoodLine bufLen l) :
-    (clientFeed ⟨[], msgs⟩ (lines.map (fun c => (c ++ [DELIM]).take bufLen)).flatten).buf = [] ∧
-    printed (clientFeed ⟨[], msgs⟩ (lines.map (fun c => (c ++ [DELIM]).take bufLen)).flatten).msgs
+theorem pipeline_plain (lines : List Bytes) (msgs : List Bytes)
+    (hgood : ∀ l ∈ lines, GoodLine l) :
+    (clientFeed ⟨[], msgs⟩ (lines.map (fun c => c ++ [DELIM])).flatten).buf = [] ∧
+    printed (clientFeed ⟨[], msgs⟩ (lines.map (fun c => c ++ [DELIM])).flatten).msgs
       = printed msgs ++ lines.flatten := by
   induction lines generalizing msgs with
   | nil => simp [clientFeed]
   | cons l ls ih =>
-    obtain ⟨hwf, hd, hdot, hfit⟩ := hgood l (by simp)
-    have htake : (l ++ [DELIM]).take bufLen = l ++ [DELIM] := by
-      apply List.take_of_length_le; simpa using hfit
+    obtain ⟨hwf, hd, hdot⟩ := hgood l (by simp)
     obtain ⟨ms, hfeed, hms⟩ := clientFeed_frame [] l msgs (by simp) (by simp) hwf hd
     simp only [List.nil_append] at hfeed hms
-    simp only [List.map_cons, List.flatten_cons, htake, clientFeed_append, hfeed]
+    simp only [List.map_cons, List.flatten_cons, clientFeed_append, hfeed]
     have ih' := ih (msgs ++ ms) (fun x hx => hgood x (by simp [hx]))
     refine ⟨ih'.1, ?_⟩
     rw [ih'.2, printed_append]
@@ -120,5 +118,22 @@ theorem pipeline_plain (bufLen : Nat) (lines : List Bytes) (msgs : List Bytes)
       have hne : isHidden ([] : Bytes) = false := by simp [isHidden]
       rcases hms with rfl | rfl <;> simp [printed, hnh, hne]
     simp [hp]
+
+/-- the pieces handed out by successive Read calls concatenate to the frame -/
+theorem readPieces_flatten (bufLen : Nat) (hb : 0 < bufLen) (bs : Bytes) (fuel : Nat) (hf : bs.length ≤ fuel) :
+    (readPieces bufLen fuel bs).flatten = bs := by
+  induction fuel generalizing bs with
+  | zero =>
+    have : bs = [] := List.eq_nil_of_length_eq_zero (by omega)
+    subst this; simp [readPieces]
+  | succ f ih =>
+    cases bs with
+    | nil => simp [readPieces]
+    | cons b rest =>
+      have hne : ¬ bufLen = 0 := by omega
+      simp only [readPieces, hne, if_false, List.flatten_cons]
+      rw [ih ((b :: rest).drop bufLen) (by
+        simp only [List.length_drop, List.length_cons] at hf ⊢; omega)]
+      exact List.take_append_drop bufLen (b :: rest)
 
 end Dtail
